@@ -502,6 +502,8 @@ def check_case(case):
                         and not isinstance(case["normal_id"], int):
                     from vk import cli
 
+                    cli.use_case(case)
+
                     diff = cli.call_diff(seg, d, "none", 2, case["purity"], False, None, None, None, None, vcf=path,
                                          sample_id=case["sample_id"], normal_id=case["normal_id"],
                                          min_variant_depth=case["het_min_depth"], zygosity_freq=case["zyg_freq"])
